@@ -153,6 +153,8 @@ def run(res, tier, seed, driver_ok):
         except Exception as e:
             bad('raises:arm-setup:%s' % type(e).__name__, 'setting up an arm with explicit spatial inertias raised', {}, repr(e)); break
         q = np.array([r2.uniform(-math.pi, math.pi) for _ in range(n)]); qd = np.array([r2.uniform(-2, 2) for _ in range(n)]); qdd = np.array([r2.uniform(-2, 2) for _ in range(n)])
+        if r2.random() < 0.35:      # some joints exactly at rest while others move
+            qd = qd * np.array([0.0 if r2.random() < 0.5 else 1.0 for _ in range(n)])
         gv = np.array([0, 0, -9.81])
         # tip wrench [moment; force]: none, dense, pure moment, pure force, a single basis wrench
         wk = r2.choice(['zero', 'dense', 'dense', 'moment', 'force', 'basis'])
